@@ -36,7 +36,20 @@ ARGS = _Args({
     "kxy": ((), {"x": 1, "y": 2}),
     "kyx": ((), {"y": 2, "x": 1}),
     "p1k": ((1,), {"x": 1}),
+    # constructions that fail: __init__ raises after it has set its attributes -- an ordinary exception,
+    # and one that is not an Exception (KeyboardInterrupt-like)
+    "xE": (("boomE",), {}),
+    "xB": (("boomB",), {}),
 })
+
+
+class InitFailed(Exception):
+    pass
+
+
+class InitAborted(BaseException):
+    pass
+
 
 # class kinds: own = own default metaclass; shared0/shared1 = two classes on one metaclass object;
 # sub0 = subclass of class index 0; custom = own metaclass with hashfunc args[0] % 2
@@ -46,6 +59,7 @@ POOLS = {
         dict(classes=["shared0", "shared1", "custom"], keys=["p1", "m1", "m2"]),
         dict(classes=["own"], keys=["p1", "m1", "m2", "kxy", "kyx", "p1k"]),
         dict(classes=["falsy", "own"], keys=["p1", "m1", "kxy"]),
+        dict(classes=["own", "sub0"], keys=["p1", "xE", "xB"]),
     ],
     "thorough": [
         dict(classes=["falsy", "sub0"], keys=["p1", "m1", "m2", "kxy"]),
@@ -54,6 +68,7 @@ POOLS = {
         dict(classes=["own", "own", "sub0"], keys=["p1", "m1", "m2"]),
         dict(classes=["own", "custom", "sub1"], keys=["p1", "p2", "m2"]),
         dict(classes=["own"], keys=["p1", "m1", "m2", "kxy", "kyx", "p1k"]),
+        dict(classes=["own", "sub0", "custom"], keys=["p1", "m1", "xE", "xB"]),
     ],
 }
 
@@ -89,6 +104,10 @@ class World:
                 inits["total"] += 1
                 self.a = a
                 self.k = dict(k)
+                if a and a[0] == "boomE":
+                    raise InitFailed()
+                if a and a[0] == "boomB":
+                    raise InitAborted()
             ns = {"__init__": __init__}
             if falsy:
                 # an (initially empty) container-like class: its instances are falsy
@@ -382,6 +401,17 @@ class Sys:
                 c, a = op[1], ARGS[op[2]]
                 mk = w.mkey(c, op[2])
                 before = w.inits["total"]
+                if op[2] in ("xE", "xB") and mk not in w.model[c]:
+                    # a failing construction: must raise every time, run __init__ every time, and map nothing
+                    try:
+                        o = w.cls[c](*a[0], **a[1])
+                    except (InitFailed, InitAborted):
+                        if w.inits["total"] - before != 1:
+                            w.step_bad.append("failing-init-count")
+                        return ("exc", "init-raised")
+                    w.keep.append(o)
+                    w.step_bad.append("failing-construction-returned-an-object")
+                    return ("ret", "instance")
                 o = w.cls[c](*a[0], **a[1])
                 ran = w.inits["total"] - before
                 w.keep.append(o)
